@@ -14,8 +14,8 @@ TOK = {
     "raw_nonascii": ["é", "ж", "中", "😀", "٣", "４", "\u200c", "\u00ad", "\ufeff", "\u200b", "\u2060"],
     "esc_utf8_up": ["%C3%A9", "%D0%B6", "%E4%B8%AD", "%F0%9F%98%80"],
     "esc_utf8_lo": ["%c3%a9", "%d0%b6", "%e4%b8%ad", "%f0%9f%98%80", "%C3%aB", "%c3%Ab"],
-    "space_raw": [" "],
-    "space_esc": ["%20"],
+    "space_raw": [" ", "\u00a0", "\u2003"],
+    "space_esc": ["%20", "%C2%A0", "%E2%80%83", "%E3%80%80", "%c2%a0"],
     "esc_reserved": ["%2F", "%3F", "%23", "%26", "%3D", "%40", "%3A", "%2B", "%3B", "%2C", "%2f", "%3f"],
     "esc_percent": ["%25"],
     "double": ["%2541", "%2520", "%252F", "%2525", "%25zz"],
